@@ -135,6 +135,7 @@ pub struct Ctx {
     pub assumptions: Vec<String>,
     pub exhaustive_parts: Vec<String>,
     pub inconclusive: Vec<String>,
+    pub harness_errors: Vec<String>,
     pub max_shrink_iters: u32,
     pub start: Instant,
 }
@@ -159,6 +160,7 @@ impl Ctx {
             assumptions: vec![],
             exhaustive_parts: vec![],
             inconclusive: vec![],
+            harness_errors: vec![],
             max_shrink_iters: 4096,
             start: Instant::now(),
         }
@@ -269,6 +271,9 @@ pub fn finish(ctx: Ctx) -> i32 {
     if !ctx.inconclusive.is_empty() {
         coverage["inconclusive"] = json!(ctx.inconclusive);
     }
+    if !ctx.harness_errors.is_empty() {
+        coverage["harness_errors"] = json!(ctx.harness_errors);
+    }
     if !vio_out.is_empty() {
         coverage["violation_list"] = json!(vio_out);
     }
@@ -288,6 +293,14 @@ pub fn finish(ctx: Ctx) -> i32 {
     if let Err(e) = std::fs::write(&evpath, serde_json::to_string_pretty(&ev).unwrap()) {
         eprintln!("cannot write evidence {}: {}", evpath, e);
         return 2;
+    }
+    if !ctx.harness_errors.is_empty() {
+        for h in ctx.harness_errors.iter().take(5) {
+            eprintln!("HARNESS ERROR (not a verdict): {}", h);
+        }
+        if exit == 0 {
+            exit = 2;
+        }
     }
     println!(
         "{} {} seed={} evaluations={} distinct_nontrivial={} violations={} wall={:.1}s",
@@ -398,9 +411,13 @@ where
         }
     });
     let (st, vios, inc) = merged.into_inner().unwrap();
-    // one violation per distinct minimal case
+    // one violation per distinct minimal case; failures of the machinery itself are not verdicts
     let mut seen = HashSet::new();
     for v in vios {
+        if v.message.starts_with("HARNESS:") {
+            ctx.harness_errors.push(format!("{}: {}", family, v.message));
+            continue;
+        }
         if seen.insert(serde_json::to_string(&v.case).unwrap_or_default()) {
             ctx.violations.push(v);
         }
@@ -451,6 +468,10 @@ where
     let (st, mut fails) = merged.into_inner().unwrap();
     fails.sort();
     for (i, m) in fails.into_iter().take(5) {
+        if m.starts_with("HARNESS:") {
+            ctx.harness_errors.push(format!("{}: {}", family, m));
+            continue;
+        }
         ctx.violations.push(Violation { family: family.to_string(), case: to_case(i), message: m });
     }
     if exhaustive {
